@@ -34,7 +34,7 @@ CONSTANTS
 INVARIANTS %(inv)s FreeClean
 CHECK_DEADLOCK FALSE
 """
-DT_ACTIONS = ["New", "DoAppend", "DoRemove", "DoReplace", "DoMove", "DoCopy"]
+DT_ACTIONS = ["New", "DoAppend", "DoRemove", "DoReplace", "DoMove", "DoCopy", "DoCopyFails"]
 
 
 def dt_cfg(ops, guarded, emit, wf=True):
@@ -73,6 +73,20 @@ def replay_transition(tr):
             objs[a[0]].replace_child(objs[a[1]], [objs[x] for x in a[2:]])
         elif op == "move_to":
             objs[a[0]].move_to(objs[a[1]], prefix=bool(a[2]))
+        elif op == "copy_fails":
+            import copy as _copy
+            real = _copy.deepcopy
+
+            def failing(x, memo=None, _nil=[]):
+                raise RecursionError("injected: maximum recursion depth exceeded")
+            advtree.copy.deepcopy = failing
+            try:
+                try:
+                    objs[a[0]].copy()      # (returns normally if copy() no longer goes through copy.deepcopy:
+                except RecursionError:     #  then nothing was injected and only the unchanged heap is compared)
+                    pass
+            finally:
+                advtree.copy.deepcopy = real
         elif op == "copy":
             cp = objs[a[0]].copy()
             free = sorted(set(range(1, n + 1)) - alloc)
